@@ -1866,7 +1866,15 @@ def evaluate__round(self: XPathFunction, context: ta.ContextType = None) \
     if arg is None:
         return []
     elif isinstance(arg, XPathNode) or self.parser.compatibility_mode:
-        arg = self.number_value(arg)
+        typed_value = None
+        if isinstance(arg, XPathNode) and not self.parser.compatibility_mode:
+            typed_value = self.data_value(arg)
+
+        if isinstance(typed_value, (int, float, decimal.Decimal)) \
+                and not isinstance(typed_value, bool):
+            arg = typed_value  # a typed node: the function is applied to its typed value
+        else:
+            arg = self.number_value(arg)
 
     if isinstance(arg, float) and (math.isnan(arg) or math.isinf(arg)):
         return arg
